@@ -817,6 +817,31 @@ func (g *gen) entity() *Entity {
 		taken[strings.ToLower(snake(f.Name))] = true
 		e.Data = append(e.Data, f)
 	}
+	// schemas declared inside the entity block, each used by a data field
+	nn := rapid.IntRange(0, 2).Draw(t, "nentitynested")
+	for i := 0; i < nn; i++ {
+		name := g.typeName(g.curPkg.Name)
+		fname := lowerFirst(name) + "Ref"
+		for taken[strings.ToLower(snake(fname))] {
+			fname += "X"
+		}
+		taken[strings.ToLower(snake(fname))] = true
+		ref := &Ref{Package: g.curPkg.Name, Name: name}
+		switch rapid.IntRange(0, 2).Draw(t, "entitynestedkind") {
+		case 0:
+			e.Nested = append(e.Nested, &Decl{Object: &Object{Name: name, Fields: g.simpleFields(rapid.IntRange(0, 2).Draw(t, "nnf"))}})
+			e.Data = append(e.Data, &Field{Name: fname, Type: &Type{Kind: "object", Ref: ref}})
+		case 1:
+			en := g.enumBody(name, name)
+			e.Nested = append(e.Nested, &Decl{Enum: en})
+			e.Data = append(e.Data, &Field{Name: fname, Type: &Type{Kind: "enum", Ref: ref}})
+		default:
+			oo := &Oneof{Name: name, Options: []*Field{{Name: "first", Type: &Type{Kind: "object", InlineObject: &Object{Fields: g.simpleFields(1)}}}}}
+			e.Nested = append(e.Nested, &Decl{Oneof: oo})
+			e.Data = append(e.Data, &Field{Name: fname, Type: &Type{Kind: "oneof", Ref: ref}})
+		}
+		g.cls("entity-nested-schema")
+	}
 	words := rapid.Permutation(enumWords).Draw(t, "statuswords")
 	ns := rapid.IntRange(1, 5).Draw(t, "nstatus")
 	for i := 0; i < ns; i++ {
@@ -873,3 +898,5 @@ func (g *gen) entity() *Entity {
 	}
 	return e
 }
+
+func lowerFirst(s string) string { return strings.ToLower(s[:1]) + s[1:] }
